@@ -201,7 +201,23 @@ def showAddr : Option (List Nat) → String
   | none => "-"
   | some a => toHex a
 
+def atoms : List Sexp → Option (List String)
+  | [] => some []
+  | .atom a :: rest => (atoms rest).map (a :: ·)
+  | _ => none
+
+def parseSeed : Sexp → Option SeedM
+  | .list [.atom "c"] => some .const
+  | .list (.atom "r" :: ws) => (atoms ws).map .rel
+  | .list (.atom "a" :: ws) => (atoms ws).map .root
+  | _ => none
+
 partial def parseIdlSet : Sexp → Option IdlSet
+  | .list [.atom "single", .atom fl, .atom a, .list seeds] => do
+    let x ← parseFlags fl
+    let a ← parseAddr a
+    let sd ← seeds.mapM parseSeed
+    pure (.single { x with address := a, seeds := sd })
   | .list [.atom "single", .atom fl, .atom a] => do
     let x ← parseFlags fl
     let a ← parseAddr a
@@ -238,6 +254,7 @@ def showSlots (present : Bool) (l : List Slot) : String :=
 
 def showCAcc (a : CAcc) : String :=
   a.name ++ ":" ++ showBool a.signer ++ showBool a.writable ++ showBool a.optional ++ ":" ++ showAddr a.address
+    ++ (if a.seedAccounts.isEmpty then "" else ":" ++ ",".intercalate a.seedAccounts)
 
 def showCAccs (l : List CAcc) : String := if l.isEmpty then "-" else " ".intercalate (l.map showCAcc)
 
@@ -280,11 +297,6 @@ def parseSlot (s : String) : Option Slot :=
   | _ => none
 
 def sortedNames (ns : List String) : List String := (ns.map camel).mergeSort (fun a b => decide (a ≤ b))
-
-def atoms : List Sexp → Option (List String)
-  | [] => some []
-  | .atom a :: rest => (atoms rest).map (a :: ·)
-  | _ => none
 
 /-! ### the ops -/
 
